@@ -61,9 +61,17 @@ class Unknown(V):
 class TensorV(V):
     shape: tuple[Dim, ...]
     dtype: str = "float"  # 'float' | 'int' | 'bool' | 'any'
+    lay: tuple | None = None  # per axis: layout.Layout | None  (see sa/layout.py); None = all unknown
 
     def __repr__(self) -> str:
         return "T" + fmt_shape(self.shape)
+
+
+def fresh_tensor(shape: tuple[Dim, ...], dtype: str = "float") -> TensorV:
+    """an abstract tensor whose axes are atomic: each axis of a single-symbol size is its own atom"""
+    from .layout import fresh
+
+    return TensorV(tuple(shape), dtype, fresh(shape))
 
 
 @dataclass(frozen=True)
@@ -1311,7 +1319,11 @@ class Interp:
             shp = self.param_shape(fv.pid, st)
             folds = h.get("folds")
             if isinstance(shp, TupleV) and all(isinstance(x, IntV) for x in shp.items) and isinstance(folds, IntV):
-                yield TensorV((folds.d,) + tuple(x.d for x in shp.items)), st  # type: ignore[union-attr]
+                from .layout import fresh_axis, placeholder
+
+                dims = (st.norm(folds.d),) + tuple(st.norm(x.d) for x in shp.items)  # type: ignore[union-attr]
+                lay = (fresh_axis(dims[0]),) + tuple(placeholder(fv.name or f"p{fv.pid}", k, d) for k, d in enumerate(dims[1:]))
+                yield TensorV(dims, "float", lay), st
             else:
                 yield self.unk(f"parameter {fv.name} with unbound shape"), st
             return
